@@ -56,7 +56,12 @@ def check(ctx, run):
                     okc = const_of(second) == want
                 rank_ok = rank_ok and okc
             else:
-                rank_ok = rank_ok and is_call(second, 'functions::jentry_compare_level')
+                # the rank byte: jentry_compare_level(entry), or the rank constant of the entry kind established on this path
+                lv = {g('NULL_TAG'): g('NULL_LEVEL'), g('STRING_TAG'): g('STRING_LEVEL'), g('NUMBER_TAG'): g('NUMBER_LEVEL'),
+                      g('TRUE_TAG'): g('TRUE_LEVEL'), g('FALSE_TAG'): g('FALSE_LEVEL')}
+                kinds_eq = [c[2] for c in tc if c[1] == 'eq']
+                const_ok = const_of(second) is not None and kinds_eq and lv.get(kinds_eq[-1]) == const_of(second)
+                rank_ok = rank_ok and (is_call(second, 'functions::jentry_compare_level') or bool(const_ok))
         for e in pushes[2:]:
             v = deref_all(e[2][1])
             if is_call(v, 'Index::index'):
